@@ -479,3 +479,22 @@ def simulate_final_states(module, cfg, work: Work, num, depth, sim_seed, tag="si
         finals.append(st)
     shutil.rmtree(d, ignore_errors=True)
     return res, finals
+
+
+def near_misses(expr: str):
+    """Strings that are (most probably) NOT in the language but become `expr` under a normalisation a memo might use as its key: strip(), removal of all
+    white space, casefold(), NFKC. They are fed to the same entry point BEFORE the judged call and their own verdict is not judged there: a refused or
+    unparsable input handled earlier must not change what a later valid input gives."""
+    out = [" " + expr, expr + "\u00a0", "\t" + expr + "\n"]
+    m = re.search(r"\[(\d)(\d+)", expr)
+    if m:
+        out.append(expr[:m.start()] + "[" + m.group(1) + " " + m.group(2) + expr[m.end():])          # [12] -> [1 2]
+    m = re.search(r"\](\s*)\[", expr)
+    if m:
+        out.append(expr[:m.start()] + "] ] [" + expr[m.end():])
+    if "ss" in expr.casefold():
+        i = expr.casefold().index("ss")
+        out.append(expr[:i] + "\u00df" + expr[i + 2:])                                              # Muss -> Mu\u00df (casefold-equal)
+    out.append(expr.translate({ord(c): 0xFF10 + int(c) for c in "0123456789"}))                   # full-width digits (NFKC-equal)
+    out.append(expr.replace("[", "\uff3b", 1))                                                    # full-width bracket
+    return [o for o in out if o != expr]
